@@ -66,6 +66,7 @@ type Term struct {
 	name string // OpVar
 	hi   int    // OpExtract
 	lo   int
+	dec  bool // mentions a digit byte of an expanded decimal text ($dec...)
 }
 
 type termTable struct {
@@ -111,6 +112,14 @@ func intern(t *Term) *Term {
 	}
 	t.id = tt.next
 	tt.next++
+	if t.op == OpVar {
+		t.dec = strings.HasPrefix(t.name, "$dec")
+	}
+	for _, a := range t.args {
+		if a.dec {
+			t.dec = true
+		}
+	}
 	tt.tab[k] = t
 	return t
 }
